@@ -116,20 +116,22 @@ def run_c34(ctx):
     # 1. the online model: reader + read() against every valid framed stream (unbounded number of units),
     #    every chunking; intended variant must be exact; the two as-is variants must give counterexamples
     mc_cfg = "AnnexB_MC" if quick else "AnnexB_MC_big"
-    vec_cfg = "AnnexBVec_q" if quick else "AnnexBVec_t"
+    vec_cfgs = ["AnnexBVec_q"] if quick else ["AnnexBVec_t1", "AnnexBVec_t2", "AnnexBVec_t3"]
     jobs = [lambda: vlib.tlc_model(_sub(ctx, "mc"), "AnnexB", mc_cfg, workers=4 if quick else 8),
             lambda: vlib.tlc_expect_violation(_sub(ctx, "asis"), "AnnexB", "AnnexB_asis", workers=1),
             lambda: vlib.tlc_expect_violation(_sub(ctx, "asis-eof"), "AnnexB", "AnnexB_asis_eof", workers=1),
-            lambda: vlib.tlc_model(_sub(ctx, "vec"), "AnnexBVec", vec_cfg, workers=1),
             lambda: vlib.tlc_expect_violation(_sub(ctx, "vec-asis"), "AnnexBVec", "AnnexBVec_asis", workers=1),
             lambda: vlib.go_build(ctx, "annexb_h264"),
             lambda: vlib.go_build(ctx, "annexb_h265")]
-    mc, asis, asis_eof, vec, vec_asis, bin264, bin265 = parallel(jobs)
-    for r in (mc, vec):
+    jobs += [(lambda c=c: vlib.tlc_model(_sub(ctx, c), "AnnexBVec", c, workers=1)) for c in vec_cfgs]
+    res = parallel(jobs)
+    mc, asis, asis_eof, vec_asis, bin264, bin265 = res[:6]
+    vec_runs = res[6:]
+    for r in [mc] + vec_runs:
         ctx.cov["states"] += r.distinct
         ctx.cov["transitions"] += r.generated
-    for name, r in (("AnnexB/" + mc_cfg, mc), ("AnnexB/AnnexB_asis", asis), ("AnnexB/AnnexB_asis_eof", asis_eof),
-                    ("AnnexBVec/" + vec_cfg, vec), ("AnnexBVec/AnnexBVec_asis", vec_asis)):
+    for name, r in [("AnnexB/" + mc_cfg, mc), ("AnnexB/AnnexB_asis", asis), ("AnnexB/AnnexB_asis_eof", asis_eof),
+                    ("AnnexBVec/AnnexBVec_asis", vec_asis)] + [("AnnexBVec/" + c, r) for c, r in zip(vec_cfgs, vec_runs)]:
         ctx.cov["tlc_runs"].append({"spec": name, "rc": r.rc, "generated": r.generated, "distinct": r.distinct,
                                     "depth": r.depth, "wall_s": round(r.wall, 2)})
     ctx.log("online model %s: %d distinct states, depth %d (any number of units, every chunking): Exact holds" %
@@ -142,7 +144,7 @@ def run_c34(ctx):
                          (asis.rc, vec_asis.rc))
 
     # 2. vectors: every stream TLC enumerated, plus stretched copies (long units up to 10 KiB)
-    vecs = [v[0] for v in vec.tag("VERIF_VEC")]
+    vecs = [v[0] for r in vec_runs for v in r.tag("VERIF_VEC")]
     if not vecs:
         raise vlib.NoVerdict("AnnexBVec emitted no vectors")
     cases = [{"id": i, "units": v["units"]} for i, v in enumerate(vecs)]
@@ -159,7 +161,7 @@ def run_c34(ctx):
         # a few more units so that SEI appears at every position of longer streams
         extra = [dict(vecs[rng.randrange(len(vecs))]["units"][0]) for _ in range(rng.randrange(0, 4))]
         cases.append({"id": len(cases), "units": units + extra, "long": True})
-    ctx.log("%d streams from TLC (%s), %d stretched to long units" % (len(vecs), vec_cfg, nlong))
+    ctx.log("%d streams from TLC (%s), %d stretched to long units" % (len(vecs), ", ".join(vec_cfgs), nlong))
     eofdata = 8 if quick else 20      # every n-th stream is also delivered with final-chunk+EOF
     traces = []
 
@@ -244,12 +246,11 @@ def run_c35(ctx):
             lambda: vlib.tlc_expect_violation(_sub(ctx, "pktfix"), "AnnexBWriter", "AnnexBWriter_pktfix", workers=1),
             lambda: vlib.go_build(ctx, "nalwriter_h264"),
             lambda: vlib.go_build(ctx, "nalwriter_h265")]
-    if not quick:
-        jobs.append(lambda: vlib.tlc_model(_sub(ctx, "mc-t"), "AnnexBWriter", "AnnexBWriter_MC_t", workers=1,
-                                           timeout=500))
+    deep = [] if quick else ["AnnexBWriter_MC_t", "AnnexBWriter_MC_t264"]
+    jobs += [(lambda c=c: vlib.tlc_model(_sub(ctx, c), "AnnexBWriter", c, workers=1, timeout=500)) for c in deep]
     res = parallel(jobs)
     mc, asis, pktfix, bin264, bin265 = res[:5]
-    models = [("AnnexBWriter/AnnexBWriter_MC", mc)] + ([("AnnexBWriter/AnnexBWriter_MC_t", res[5])] if not quick else [])
+    models = [("AnnexBWriter/AnnexBWriter_MC", mc)] + [("AnnexBWriter/" + c, r) for c, r in zip(deep, res[5:])]
     for name, r in models:
         ctx.cov["states"] += r.distinct
         ctx.cov["transitions"] += r.generated
